@@ -672,6 +672,11 @@ impl LzmaDecoder {
     /// the input dict size, expected unpacked data size, and memory limit
     /// for the internal buffer.
     pub fn new(params: LzmaParams, memlimit: Option<usize>) -> error::Result<LzmaDecoder> {
+        if params.dict_size == 0 {
+            return Err(error::Error::LzmaError(String::from(
+                "LZMA dictionary size must not be zero",
+            )));
+        }
         Ok(Self {
             params,
             memlimit: memlimit.unwrap_or(usize::MAX),
